@@ -137,6 +137,18 @@ CHECKS += [
      "design_ref": "DESIGN.md 4/C18", "technique": TLA + " (Indent.tla grammar + closed-form columns)",
      "note": "C++ rendering with braces on their own lines; continuation lines, labels and trailing comments excluded as in the statement; non-default brace styles are judged by their documented offsets"},
 ]
+
+ENGINES += [
+    {"name": "mods", "path": "spec/Mods.tla spec/ModsTrace.tla vlib/checks/c04.py",
+     "serves_properties": ["C04"],
+     "kind_free_text": "TLA+ table of what each mod_ option may add or remove with the OnlyNamedKinds / OrderKept / Balanced predicates, and a transcription of examine_brace() over token lists with levels and virtual braces; TLC checks MeaningKept (print, re-parse with the dangling-else rule, compare trees) over all statement trees / spine trees to the bound, rejects the skip-one variant and emits its sensitivity set; every tree is rendered to C, formatted and abstracted back; files under every mod_ option are judged by the trace specification"},
+]
+CHECKS += [
+    {"id": "C04", "engine": "mods", "level": "model_checking",
+     "text": "Mods.tla: all statement trees of depth 2 and spine trees of depth 3 (4 thorough) satisfy MeaningKept and OnlyBracesGo under the transcribed examine_brace(); the variant that skips only one virtual closing brace is rejected and the trees on which it fails (depth 4) form a sensitivity set. Every emitted tree and the sensitivity set are rendered to C and run with the brace-removing options; the abstracted output is judged (meaning, kinds, balance) and compared with the braces the model removes (drift 0). Programs exercising every mod_ option x each value singly, seeded combinations and corpus pairs with mod configurations are judged for OnlyNamedKinds / OrderKept / Balanced by ModsTrace.",
+     "design_ref": "DESIGN.md 4/C04", "technique": TLA + " (Mods.tla allowed-edit table + examine_brace transcription)",
+     "note": "token identity by the independent lexer (C family); sorting options judged as multiset of tokens, duplicate-include removal on the set of headers; the allowed-kinds table is part of the specification"},
+]
 _PENDING = "check not built yet in this commit (specification module planned in DESIGN.md 3.1); will be claimed when its check is quiet on the unchanged tree"
 NOT_APPLICABLE = [{"property_id": "C%02d" % i, "reason": _PENDING} for i in range(1, 21) if "C%02d" % i not in {c["id"] for c in CHECKS}]
 NOTES = "All checks: bin/check <ID> --tier quick|thorough; VERIF_SEED is honoured; evidence in /verif/evidence/<ID>.json; known findings in /verif/known_findings.json."
